@@ -254,8 +254,9 @@ class RefSimulation(object):
             raise myokit.SimulationError('simshim: non-finite initial state or constant')
         t0 = self._t
         tend = t0 + float(duration)
-        if len(times) and (times[0] < t0 or times[-1] > tend):
-            raise ValueError('simshim: log_times outside the simulated interval')
+        # myokit logs a requested time once the solver has passed it (`while (t > tlog)`): times before the start
+        # and times at or after t0 + duration are silently left out of the log
+        times = times[(times >= t0) & (times < tend)]
         x_end, out = self._integrate(self._x, dict(self._consts), t0, tend, times, log)
         reslog = {name: [float(np.real(v)) for v in out[name]] for name in log}
         result = reslog
